@@ -139,7 +139,7 @@ def run_one(job):
         if r.returncode != 0:
             rec['verdict'] = 'does_not_import'
             return rec
-        t = subprocess.run(['/venv/bin/python', '-m', 'pytest', '-q', '-x', '-p', 'no:cacheprovider',
+        t = subprocess.run(['/venv/bin/python', '-m', 'pytest', '-q', '-p', 'no:cacheprovider',
                             '--continue-on-collection-errors', '--timeout=600'], cwd=tree, env=env, capture_output=True, text=True)
         tail = (t.stdout.strip().splitlines() or [''])[-1]
         if not tail.startswith('86 passed'):
